@@ -6,6 +6,12 @@
 // (batch 1) b of 2^30 elements and a minibatched a it has 2^32 elements: the nested matmul_fw
 // raises Error AFTER ga has been updated.  Needs about 13 GiB.
 //   matmul_bw_probe [n]   (n = 32768 by default; b = [n,n]x1, a = [1,n]x4)
+// Last line and exit code (engines/c10.py reads both; anything else = the probe did not run):
+//   VERDICT updated-before-error   rc 0   Error raised by the SHAPE guard (not by the allocator) and ga[0] != 0
+//   VERDICT unchanged              rc 0   Error raised and ga[0] == 0 (failure-atomic)
+//   VERDICT no-error               rc 0   the call returned
+//   VERDICT could-not-run <why>    rc 3   set-up failed, or the Error came from the allocator (out of memory)
+//   VERDICT wrong-exception <what> rc 0   matmul_bw raised something that is not primitiv::Error
 #include <primitiv/primitiv.h>
 #include <primitiv/core/shape_ops.h>
 #include <cstdlib>
@@ -29,10 +35,16 @@ int main(int argc, char **argv) {
     bool threw = false; std::string msg;
     try { dev.matmul_bw(a, b, y, gy, ga, gb); }
     catch (Error &e) { threw = true; msg = e.what(); }
+    catch (std::bad_alloc &) { std::cout << "VERDICT could-not-run bad_alloc inside matmul_bw" << std::endl; return 3; }
+    catch (std::exception &e) { std::cout << "VERDICT wrong-exception " << e.what() << std::endl; return 0; }
     const float ga0 = ga.to_vector()[0];
     std::cout << "matmul_bw " << (threw ? "raised Error" : "returned") << "; ga[0]=" << ga0
               << (threw && ga0 != 0 ? "  => ga was UPDATED before the Error" : "") << std::endl;
     if (threw) std::cout << "what: " << msg.substr(0, 160) << std::endl;
-  } catch (std::exception &e) { std::cout << "setup failed: " << e.what() << std::endl; }
+    // an Error of the allocator (memory shortage) is not the behaviour probed for
+    const bool alloc = msg.find("emory") != std::string::npos || msg.find("alloc") != std::string::npos;
+    if (threw && alloc) { std::cout << "VERDICT could-not-run allocation failure inside matmul_bw" << std::endl; return 3; }
+    std::cout << "VERDICT " << (!threw ? "no-error" : ga0 != 0 ? "updated-before-error" : "unchanged") << std::endl;
+  } catch (std::exception &e) { std::cout << "VERDICT could-not-run setup failed: " << e.what() << std::endl; return 3; }
   return 0;
 }
